@@ -198,6 +198,7 @@ class ShardsList(BaseModel):
                                  f"to {dataset_root_path.resolve()}")
             # Load
             return ShardsList.model_validate_json(
-                (dataset_root_path / relative_path_self).read_text())
+                (dataset_root_path /
+                 relative_path_self).read_text(encoding="utf-8"))
 
         return ShardsList(relative_path_self=relative_path_self)
